@@ -201,7 +201,7 @@ def tla(v):
 TARGET_QUICK = {1, 2, 3, 5, 6, 7, 8, 9, 10, 11, 12, 13, 15}
 TARGET_ALL = TARGET_QUICK | {16, 17, 18, 19}
 CONSTS = ["TableFile", "Sel", "NKeys", "NSingles", "NRest", "NClasses", "NRClasses", "PairMax", "Seed", "FlagSeqs", "CfgStride", "SimMode", "SimMax",
-          "InstFull", "InstMax", "NInstPlain", "InstCfgs", "InstFlagSeqs", "TargetTypes", "TargetModes", "TargetStride"]
+          "InstFull", "InstMax", "NInstPlain", "InstCfgs", "InstFlagSeqs", "TargetTypes", "TargetModes", "TargetStride", "StagMods", "StagOffs"]
 
 
 def gen_module(c):
@@ -240,6 +240,8 @@ def behaviour(ctx, hist, srcs, tables, compact=1):
             removed.append(h[1])
         elif h[0] == "rmclass":
             removed += tab["classes"][h[1] - 1]
+        elif h[0] == "rmstag":
+            removed += sorted(h[1])
         elif h[0] == "rmset":
             removed += sorted(h[1]) + (tab["classes"][h[2] - 1] if h[2] else [])
         elif h[0] == "cfg":
@@ -658,7 +660,10 @@ def run(ctx, replay=None):
             "InstFull": False, "InstMax": 150, "NInstPlain": 1, "InstCfgs": 1, "InstFlagSeqs": {(0,)},
             # type-targeted configurations on the unmodified snapshots: the type removed with the rest default (always), and either
             # removed with the rest kept or kept alone
-            "TargetTypes": TARGET_QUICK, "TargetModes": ((-1, 1), (0, 1), (1, 0)), "TargetStride": 2}
+            "TargetTypes": TARGET_QUICK, "TargetModes": ((-1, 1), (0, 1), (1, 0)), "TargetStride": 2,
+            # staggered removals (SnStaggered pairs: the attributes whose values partition the CPUs into kinds): attribute class j
+            # removed on the instances i with (i + offset) % modulus = j % modulus
+            "StagMods": {3, 4, 5}, "StagOffs": {0, 2}}
     hists = []
     if not thorough:
         hists += run_model(ctx, base, "enum")
@@ -667,9 +672,10 @@ def run(ctx, replay=None):
     else:
         tgt = dict(TargetTypes=TARGET_ALL, TargetModes=((-1, 1), (0, 1), (1, 0), (0, 2), (1, 2)), TargetStride=1)
         c = dict(base, NKeys=40, NSingles=30, NRest=20, NClasses=40, NRClasses=25, CfgStride=4, FlagSeqs={(0, 1), (896, 897)},
-                 InstFull=True, InstMax=60, NInstPlain=3, InstCfgs=1, InstFlagSeqs={(0, 1)}, **tgt)
+                 InstFull=True, InstMax=60, NInstPlain=3, InstCfgs=1, InstFlagSeqs={(0, 1)},
+                 StagMods={2, 3, 4, 5, 6, 7, 8}, StagOffs={0, 1, 2, 3, 4, 5, 6, 7}, **tgt)
         hists += run_model(ctx, c, "enum")
-        c = dict(base, NKeys=0, NSingles=0, NRest=0, NClasses=0, NRClasses=0, PairMax=60, CfgStride=8, NInstPlain=0, TargetTypes=set())
+        c = dict(base, NKeys=0, NSingles=0, NRest=0, NClasses=0, NRClasses=0, PairMax=60, CfgStride=8, NInstPlain=0, TargetTypes=set(), StagMods=set())
         hists += run_model(ctx, c, "pairs")
         sim = dict(base, SimMode=True, FlagSeqs={(0, 1), (896, 897), (1, 0)}, **tgt)
         hists += run_model(ctx, sim, "sim", simulate="num=%d" % (12 * nsnap), depth=16, workers=1)
@@ -749,7 +755,9 @@ def run(ctx, replay=None):
              "single paths; per-instance attributes of NUMA nodes and CPUs (nodeN/cpumap, distance, meminfo, initiators, cpuN/topology/*, cache/*, "
              "online, capacity/frequency) removed singly: every instance for the Interesting (snapshot feature class, path class) pairs of "
              "Snapshot.tla (CPU-less node, heterogeneous memory, KNL, sparse numbering x node attributes; offline CPUs, CPU kinds x CPU attributes), "
-             "one instance per path class otherwise; whole attribute classes, pairs of core paths of the small snapshots (thorough) and simulated "
+             "one instance per path class otherwise; staggered removals on the snapshots with CPU kinds (attribute class j of cpuN/cpu_capacity, "
+             "cpufreq/*, acpi_cppc/* removed on the CPUs i with (i + offset) % modulus = j % modulus, moduli 3..5: the partitions of the CPUs "
+             "by the different attributes stop nesting); whole attribute classes, pairs of core paths of the small snapshots (thorough) and simulated "
              "sets of up to 40 paths (half of them with a type filter); each tuple is executed on a hard-linked scratch copy: load twice, XML "
              "round trip, per flag word. A behaviour is non-trivial when a load was attempted.",
         assumptions=["the recorder's projection digest (64-bit FNV-1a of the projection text) stands for the projection when the same "
